@@ -34,6 +34,8 @@ pub struct WatchRun {
     /// Reports printed in total (a save is usually more than one notification).
     pub reports: usize,
     pub died: Option<String>,
+    /// The watcher ended when it was shown a text on which the assembler crashes.
+    pub ended_by_assembler_crash: bool,
     pub spawn_error: Option<String>,
 }
 
@@ -119,7 +121,9 @@ pub fn run_watch(scratch: &Scratch, texts: &[String], rename_saves: &[bool], pin
     for text in texts {
         match fresh_check(scratch, text) {
             Some(v) => run.fresh.push(v),
-            None => break,
+            // The assembler itself crashes on this text: a watcher that dies of it ends the
+            // history, one that survives is judged on the versions that follow
+            None => run.fresh.push("PANIC".to_string()),
         }
     }
     let texts = &texts[..run.fresh.len()];
@@ -227,6 +231,24 @@ pub fn run_watch(scratch: &Scratch, texts: &[String], rename_saves: &[bool], pin
                 last_output = Instant::now();
             }
             let all = reports(&stdout);
+            if run.fresh[i] == "PANIC" {
+                if all.len() > before && last_output.elapsed() > SETTLED_AFTER {
+                    run.seen.push(all.last().cloned());
+                    break;
+                }
+                if let Ok(Some(_)) = child.try_wait() {
+                    // It died of the crash: nothing more to compare
+                    run.seen.push(None);
+                    run.ended_by_assembler_crash = true;
+                    break 'versions;
+                }
+                if started.elapsed() > REPORT_GUARD {
+                    run.seen.push(None);
+                    break;
+                }
+                std::thread::sleep(Duration::from_millis(3));
+                continue;
+            }
             if all.len() > before && all.last() == Some(&run.fresh[i]) {
                 run.seen.push(all.last().cloned());
                 break;
